@@ -21,6 +21,7 @@ import (
 	"go.opentelemetry.io/collector/exporter/exporterhelper/internal/request"
 	"go.opentelemetry.io/collector/extension/xextension/storage"
 	"go.opentelemetry.io/collector/pipeline"
+	"go.uber.org/multierr"
 )
 
 // ---- a map-backed storage client that can kill the incarnation right after its k-th call ----
@@ -34,7 +35,12 @@ type vC01Client struct {
 	calls int
 	opCalls int          // calls made by the current operation
 	failAt  map[int]bool // the calls of the current operation (1-based) that return an error without effect
+	lastFailed map[int]bool // the calls of the last completed operation that returned the injected error
+	gate        chan struct{} // calls made with a gated context (offers running in their own goroutine) wait here
+	gateWaiting int
 }
+
+type vC01GateKey struct{}
 
 var errVC01Injected = errors.New("verif: injected storage error")
 
@@ -54,8 +60,16 @@ func (c *vC01Client) Delete(ctx context.Context, key string) error {
 
 func (c *vC01Client) Close(context.Context) error { return nil }
 
+// failAtSeen: the k-th call of the last operation was made and returned the injected error
+func (c *vC01Client) failAtSeen(k int) bool { return c.lastFailed[k] }
+
 // Batch is atomic: the process dies only before or after it, never inside.
-func (c *vC01Client) Batch(_ context.Context, ops ...*storage.Operation) error {
+func (c *vC01Client) Batch(ctx context.Context, ops ...*storage.Operation) error {
+	if ctx.Value(vC01GateKey{}) != nil && c.gate != nil {
+		c.gateWaiting++
+		<-c.gate
+		c.gateWaiting--
+	}
 	if c.dead {
 		return errors.New("verif: incarnation is dead")
 	}
@@ -124,6 +138,66 @@ type vC01ItemsSizer struct{}
 
 func (vC01ItemsSizer) Sizeof(v uint64) int64 { return int64(v % 16) }
 
+// ---- error trees handed to Done.OnDone ----
+
+// vC01OtherErr: an error tree without any shutdown error (permanent = contains a consumererror permanent error)
+func vC01OtherErr(rnd *rand.Rand, depth int, permanent bool) (error, string) {
+	leaf := func() (error, string) {
+		if permanent {
+			return consumererror.NewPermanent(errors.New("rejected")), "P"
+		}
+		return errors.New("failed"), "E"
+	}
+	if depth >= 3 {
+		return leaf()
+	}
+	switch rnd.IntN(5) {
+	case 0:
+		e, s := vC01OtherErr(rnd, depth+1, permanent)
+		return fmt.Errorf("wrapped: %w", e), "W(" + s + ")"
+	case 1:
+		a, sa := vC01OtherErr(rnd, depth+1, permanent)
+		b, sb := vC01OtherErr(rnd, depth+1, false)
+		return errors.Join(a, b), "J(" + sa + "," + sb + ")"
+	case 2:
+		a, sa := vC01OtherErr(rnd, depth+1, false)
+		b, sb := vC01OtherErr(rnd, depth+1, permanent)
+		return multierr.Append(a, b), "M(" + sa + "," + sb + ")"
+	}
+	return leaf()
+}
+
+// vC01ShutErr: an error tree that contains a shutdown error somewhere
+func vC01ShutErr(rnd *rand.Rand, depth int) (error, string) {
+	if depth >= 3 {
+		return experr.NewShutdownErr(errors.New("interrupted")), "S"
+	}
+	switch rnd.IntN(7) {
+	case 0:
+		e, s := vC01ShutErr(rnd, depth+1)
+		return fmt.Errorf("wrapped: %w", e), "W(" + s + ")"
+	case 1:
+		a, sa := vC01OtherErr(rnd, depth+1, rnd.IntN(2) == 0)
+		b, sb := vC01ShutErr(rnd, depth+1)
+		return errors.Join(a, b), "J(" + sa + "," + sb + ")"
+	case 2:
+		a, sa := vC01ShutErr(rnd, depth+1)
+		b, sb := vC01OtherErr(rnd, depth+1, false)
+		return errors.Join(a, b), "J(" + sa + "," + sb + ")"
+	case 3:
+		// what refCountDone produces for a request exported in several parts that are all interrupted
+		a, sa := vC01ShutErr(rnd, depth+1)
+		b, sb := vC01ShutErr(rnd, depth+1)
+		return multierr.Append(a, b), "M(" + sa + "," + sb + ")"
+	case 4:
+		a, sa := vC01OtherErr(rnd, depth+1, rnd.IntN(2) == 0)
+		b, sb := vC01ShutErr(rnd, depth+1)
+		return multierr.Append(a, b), "M(" + sa + "," + sb + ")"
+	}
+	e, s := vC01OtherErr(rnd, depth+1, rnd.IntN(3) == 0)
+	return experr.NewShutdownErr(e), "S(" + s + ")"
+}
+
 // ---- script interpreter ----
 
 type vC01Op struct {
@@ -151,6 +225,15 @@ type vC01Out struct {
 	done Done
 }
 
+// an Offer that had to wait for space (runs in its own goroutine)
+type vC01Pending struct {
+	id     uint64
+	cancel context.CancelFunc
+	done   chan struct{}
+	err    error
+	died   bool
+}
+
 type vC01Run struct {
 	out      *vOut
 	capacity int
@@ -167,6 +250,13 @@ type vC01Run struct {
 	lastDiedInStart bool
 	corrupted bool
 	poisoned  bool // Batch(get ri, get wi) of a start-up failed: both indexes restart from 0 over the stored data
+	errInjected bool
+	block       bool // blockOnOverflow
+	pending     []*vC01Pending // offers blocked in hasMoreSpace.Wait, oldest first
+	settle      func()         // block harness: run until every goroutine is durably blocked (synctest.Wait)
+	acceptedIDs map[uint64]bool
+	handedIDs   map[uint64]bool
+	trnd        *rand.Rand // shapes of the error trees handed to OnDone
 	shutDoneWhileOthersInFlight bool // this incarnation: a hand-off completed with a shutdown error while another was in flight
 }
 
@@ -175,8 +265,8 @@ func vC01NewRun(out *vOut, c int, capacity int, reqSized bool, mode string) *vC0
 	if reqSized {
 		s = "req"
 	}
-	out.Linef("case %d cap=%d sizer=%s mode=%s", c, capacity, s, mode)
-	return &vC01Run{out: out, capacity: capacity, reqSized: reqSized, st: map[string][]byte{}, nextID: 1, stats: map[string]int{}}
+	out.Linef("case %d cap=%d sizer=%s mode=%s block=%d", c, capacity, s, mode, vB(mode == "block"))
+	return &vC01Run{out: out, capacity: capacity, reqSized: reqSized, st: map[string][]byte{}, nextID: 1, stats: map[string]int{}, acceptedIDs: map[uint64]bool{}, handedIDs: map[uint64]bool{}, trnd: vRand(c ^ 0x2f6b3a1d)}
 }
 
 func vC01Opt64(b []byte, ok bool) string {
@@ -238,7 +328,8 @@ func (r *vC01Run) obs(res string) {
 	r.stats["res_"+strings.SplitN(res, ":", 2)[0]]++
 	size := "-"
 	if r.pq != nil {
-		size = strconv.FormatInt(r.pq.Size(), 10)
+		// the field, not Size(): in the block harness a woken offer may be parked inside a storage call holding the mutex
+		size = strconv.FormatInt(r.pq.queueSize, 10)
 	}
 	r.out.Linef("obs r=%s size=%s %s", res, size, r.dump())
 	if os.Getenv("VERIF_REPLAY_CASE") != "" {
@@ -257,6 +348,7 @@ func (r *vC01Run) guarded(op vC01Op, f func()) (died bool) {
 	}
 	if len(op.errs) > 0 {
 		r.stats["op_with_injected_errors_"+op.kind]++
+		r.errInjected = true
 	}
 	defer func() {
 		if p := recover(); p != nil {
@@ -275,11 +367,28 @@ func (r *vC01Run) guarded(op vC01Op, f func()) (died bool) {
 			r.stats["storage_error_returned_in_"+op.kind]++
 		}
 	}
+	r.cl.lastFailed = map[int]bool{}
+	for e := range r.cl.failAt {
+		if e <= r.cl.opCalls {
+			r.cl.lastFailed[e] = true
+		}
+	}
 	r.cl.failAt = nil
 	return false
 }
 
 func (r *vC01Run) kill() {
+	for _, p := range r.pending {
+		p.cancel() // the process is gone: let the blocked goroutines of the old incarnation return
+	}
+	if len(r.pending) > 0 && r.settle != nil {
+		if r.cl != nil {
+			r.cl.dead = true
+			r.cl.gate = nil
+		}
+		r.settle()
+	}
+	r.pending = nil
 	r.pq, r.cl, r.outst = nil, nil, nil
 	r.shutDoneWhileOthersInFlight = false
 }
@@ -338,6 +447,11 @@ func (r *vC01Run) do(op vC01Op) {
 			r.stats["dispatched_items_at_start"] += int(binary.LittleEndian.Uint32(b))
 		}
 		r.out.Linef("op start die=%d errs=%s", op.die, vC01Errs(op.errs))
+		for _, e := range op.errs {
+			if e == 1 {
+				r.poisoned = true // also when this start dies later: recovery may already have written wi from 0
+			}
+		}
 		var sizer request.Sizer[uint64] = request.RequestsSizer[uint64]{}
 		if !r.reqSized {
 			sizer = vC01ItemsSizer{}
@@ -346,6 +460,7 @@ func (r *vC01Run) do(op vC01Op) {
 		r.pq = newPersistentQueue[uint64](persistentQueueSettings[uint64]{
 			sizer:     sizer,
 			capacity:  int64(r.capacity),
+			blockOnOverflow: r.block,
 			signal:    pipeline.SignalTraces,
 			storageID: component.ID{},
 			encoding:  vC01Enc{},
@@ -365,10 +480,10 @@ func (r *vC01Run) do(op vC01Op) {
 			r.obs("err")
 			return
 		}
-		for _, e := range op.errs {
-			if e == 1 {
-				r.poisoned = true
-			}
+		if r.cl.failAtSeen(1) {
+			r.stats["ext_err_giveup_index_read_failed_at_start"]++
+		} else if len(r.cl.lastFailed) > 0 {
+			r.stats["ext_err_start_with_failed_recovery_call"]++
 		}
 		r.obs("ok")
 	case "exit":
@@ -380,6 +495,38 @@ func (r *vC01Run) do(op vC01Op) {
 		r.nextID++
 		r.out.Linef("op offer id=%d sz=%d die=%d errs=%s", id, op.sz, op.die, vC01Errs(op.errs))
 		var err error
+		var sizeOf int64 = 1
+		if !r.reqSized {
+			sizeOf = int64(op.sz)
+		}
+		if r.block && r.pq.queueSize+sizeOf > int64(r.capacity) && sizeOf <= int64(r.capacity) {
+			// the offer will wait for space: run it in its own goroutine with a gated context
+			cctx, cancel := context.WithCancel(context.WithValue(ctx, vC01GateKey{}, true))
+			p := &vC01Pending{id: id, cancel: cancel, done: make(chan struct{})}
+			pq := r.pq
+			go func() {
+				defer close(p.done)
+				defer func() {
+					if x := recover(); x != nil {
+						if _, ok := x.(vC01Death); !ok {
+							panic(x)
+						}
+						p.died = true
+					}
+				}()
+				p.err = pq.Offer(cctx, id*16+uint64(op.sz))
+			}()
+			r.settle()
+			select {
+			case <-p.done:
+				r.obs("err") // did not block after all: the model says `blocked`, this will show as a difference
+			default:
+				r.pending = append(r.pending, p)
+				r.stats["offer_blocked"]++
+				r.obs("blocked")
+			}
+			return
+		}
 		if r.guarded(op, func() { err = r.pq.Offer(ctx, id*16+uint64(op.sz)) }) {
 			r.deaths++
 			r.kill()
@@ -388,9 +535,12 @@ func (r *vC01Run) do(op vC01Op) {
 		}
 		switch {
 		case err == nil:
+			r.acceptedIDs[id] = true
 			r.obs("ok")
 		case errors.Is(err, ErrQueueIsFull):
 			r.obs("full")
+		case errors.Is(err, errSizeTooLarge):
+			r.obs("toolarge")
 		default:
 			r.obs("err")
 		}
@@ -413,7 +563,11 @@ func (r *vC01Run) do(op vC01Op) {
 			r.obs("stopped")
 			return
 		}
+		if r.cl.failAtSeen(1) {
+			r.stats["ext_err_giveup_dequeue_batch_failed"]++
+		}
 		idx := done.(*indexDone).index
+		r.handedIDs[v/16] = true
 		r.outst = append(r.outst, vC01Out{idx: idx, done: done})
 		r.obs(fmt.Sprintf("item:%d:%d/%d", idx, v/16, v%16))
 	case "done":
@@ -428,12 +582,24 @@ func (r *vC01Run) do(op vC01Op) {
 		if len(r.outst) > 0 {
 			r.stats["done_with_others_in_flight"]++
 		}
+		// the outcome reaches onDone as an arbitrary wrap / join tree (batch parts are combined with multierr.Append,
+		// senders wrap with %w): the classification must be "contains a shutdown error anywhere in the tree"
 		var err error
+		shape := "nil"
 		switch op.oc {
 		case "perm":
-			err = consumererror.NewPermanent(errors.New("rejected"))
+			err, shape = vC01OtherErr(r.trnd, 0, true)
 		case "shut":
-			err = experr.NewShutdownErr(errors.New("interrupted"))
+			err, shape = vC01ShutErr(r.trnd, 0)
+		default:
+			if r.trnd.IntN(2) == 0 {
+				err, shape = vC01OtherErr(r.trnd, 0, false)
+			}
+		}
+		r.out.Linef("tr errtree %s", shape)
+		r.stats["done_errtree_depth_"+strconv.Itoa(strings.Count(shape, "("))]++
+		if experr.IsShutdownErr(err) != (op.oc == "shut") {
+			r.out.Linef("viol sig=C01/classify/shutdown-error-in-tree-misclassified shape=%s want=%d", shape, vB(op.oc == "shut"))
 		}
 		if r.guarded(op, func() { o.done.OnDone(err) }) {
 			r.deaths++
@@ -484,6 +650,20 @@ func (r *vC01Run) finish() {
 	r.out.Linef("stat deaths_in_recovery %d", r.deathsInStart)
 	if r.deaths >= 2 {
 		r.out.Linef("stat cases_with_2plus_deaths 1")
+	}
+	if r.errInjected {
+		// extension beyond the property (storage errors other than death): no oracle, counters only
+		r.out.Linef("stat ext_err_cases 1")
+		lost := 0
+		for id := range r.acceptedIDs {
+			if !r.handedIDs[id] {
+				lost++
+			}
+		}
+		if lost > 0 && !r.poisoned {
+			r.out.Linef("stat ext_err_cases_with_request_given_up 1")
+			r.out.Linef("stat ext_err_requests_given_up %d", lost)
+		}
 	}
 	if r.corrupted {
 		r.out.Linef("stat cases_with_corruption 1")
